@@ -1468,6 +1468,9 @@ def inj_import(cx: Ctx) -> Planted:
     return p
 
 
+# rules with many variants get a double share of the generated mutants
+WEIGHTED_RULES: List[str] = list(RULES) + ["scope", "name", "reference", "option"]
+
 INJECTORS: Dict[str, Callable[[Ctx], Planted]] = {
     "width": inj_width,
     "capacity": inj_capacity,
